@@ -47,6 +47,58 @@ both_families! {
 		Ok(())
 	}
 
+	/// After the steps `steps` (true = next, false = next_back) on a fresh iterator, every other way of
+	/// consuming the REST of a double-ended iterator must see exactly the middle of the split.
+	fn adaptors_after(p: &Path, steps: &[bool], exp: &[String], which: Option<usize>) -> Result<(), Failure> {
+		let fl = steps.iter().filter(|b| **b).count();
+		let bl = steps.len() - fl;
+		if fl + bl > exp.len() {
+			return Ok(());
+		}
+		let rest: Vec<String> = exp[fl..exp.len() - bl].to_vec();
+		let fresh = || {
+			let mut it = p.segments();
+			for f in steps {
+				let _ = if *f { it.next() } else { it.next_back() };
+			}
+			it
+		};
+		let s = |x: Option<&Segment>| x.map(|s| s.as_str().to_string());
+		for a in 0..8usize {
+			if let Some(w) = which {
+				if w % 8 != a {
+					continue;
+				}
+			}
+			let (name, got, want): (&str, String, String) = match a {
+				0 => ("last()", format!("{:?}", s(fresh().last())), format!("{:?}", rest.last())),
+				1 => ("count()", format!("{}", fresh().count()), format!("{}", rest.len())),
+				2 => ("nth(1)", format!("{:?}", s(fresh().nth(1))), format!("{:?}", rest.get(1))),
+				3 => ("nth_back(1)", format!("{:?}", s(fresh().nth_back(1))), format!("{:?}", rest.iter().rev().nth(1))),
+				4 => ("collect()", format!("{:?}", fresh().map(|x| x.as_str().to_string()).collect::<Vec<_>>()), format!("{:?}", rest)),
+				5 => ("rev().collect()", format!("{:?}", fresh().rev().map(|x| x.as_str().to_string()).collect::<Vec<_>>()), format!("{:?}", rest.iter().rev().cloned().collect::<Vec<_>>())),
+				6 => {
+					let (lo, hi) = fresh().size_hint();
+					let ok = lo <= rest.len() && hi.map(|h| rest.len() <= h).unwrap_or(true);
+					("size_hint()", format!("{}", ok), "true".to_string())
+				}
+				_ => {
+					let mut it = fresh();
+					let a1 = s(it.nth(0));
+					let b1 = s(it.nth_back(0));
+					let c1 = s(it.last());
+					let mut m = rest.clone();
+					let ea = if m.is_empty() { None } else { Some(m.remove(0)) };
+					let eb = m.pop();
+					let ec = m.last().cloned();
+					("nth(0), nth_back(0), last()", format!("{:?}", (a1, b1, c1)), format!("{:?}", (ea, eb, ec)))
+				}
+			};
+			ensure!(got == want, format!("iter-adaptor:{name}"), "path {:?}: after steps {:?} (true = next, false = next_back), {name} gives {got}, the rest of the split is {:?} so it should give {want}", p.as_str(), steps, rest);
+		}
+		Ok(())
+	}
+
 	pub fn check(case: &Case, cx: &mut Ctx) -> Result<(), Failure> {
 		let text = case.path.as_str();
 		let p = match Path::new(text) {
@@ -63,7 +115,12 @@ both_families! {
 				// make sure the schedule consumes everything: append n front steps
 				let full: Vec<bool> = padded.chain(std::iter::repeat(true).take(n)).chain([true, false].into_iter()).collect();
 				run_schedule(p, full.into_iter(), &exp)?;
-				cx.obs(1);
+				// after every prefix of the schedule, one of the other consuming adaptors
+				let steps: Vec<bool> = s.iter().copied().take(n).collect();
+				for t in 0..=steps.len() {
+					adaptors_after(p, &steps[..t], &exp, Some(t + n))?;
+				}
+				cx.obs(1 + steps.len() as u64);
 				cx.nt_if(n >= 2 && s.iter().take(n).any(|b| *b) && s.iter().take(n).any(|b| !*b));
 			}
 			None => {
@@ -73,6 +130,17 @@ both_families! {
 					run_schedule(p, (0..bits).map(|i| (m >> i) & 1 == 1), &exp)?;
 				}
 				cx.obs(1 << bits);
+				// every partially consumed state (every step sequence that fits) x every adaptor
+				if n <= 6 {
+					for l in 0..=n {
+						for m in 0..(1u32 << l) {
+							let steps: Vec<bool> = (0..l).map(|i| (m >> i) & 1 == 1).collect();
+							adaptors_after(p, &steps, &exp, None)?;
+						}
+					}
+					cx.obs(8 << (n + 1));
+					cx.class("all-states-x-all-adaptors");
+				}
 				cx.nt_if(n >= 2);
 				cx.class("all-schedules");
 			}
@@ -158,7 +226,7 @@ impl Prop for C12 {
 	const ID: &'static str = "C12";
 
 	fn rule() -> String {
-		"cases = (family, path, schedule). Exhaustive part: every string of length <= 8 over {a,/,.} and of <= 5 items over {a,/,é,:,%41} (IRI; the ASCII ones also for URI), each under ALL 2^(n+2) next/next_back schedules (n = number of segments; the two extra steps check that an exhausted iterator stays exhausted). Random part: generator paths (up to 40+ segments, multi-byte) with random schedules. Oracle: '/'-split of the text after the optional leading '/'. Non-trivial: >= 2 segments and (all schedules, or a schedule mixing both ends). An all-schedules case is one evaluation with 2^(n+2) observations.".into()
+		"cases = (family, path, schedule). Exhaustive part: every string of length <= 8 over {a,/,.} and of <= 5 items over {a,/,é,:,%41} (IRI; the ASCII ones also for URI), each under ALL 2^(n+2) next/next_back schedules (n = number of segments; the two extra steps check that an exhausted iterator stays exhausted). Random part: generator paths (up to 40+ segments, multi-byte) with random schedules. After every partially consumed state (all of them for <= 6 segments, every schedule prefix otherwise) the other consuming adaptors - last, count, nth, nth_back, collect, rev, size_hint, mixed - must see exactly the rest. Oracle: '/'-split of the text after the optional leading '/'. Non-trivial: >= 2 segments and (all schedules, or a schedule mixing both ends). An all-schedules case is one evaluation with 2^(n+2) observations.".into()
 	}
 
 	fn assumptions() -> Vec<String> {
@@ -234,8 +302,24 @@ impl Prop for C12 {
 				}
 			}
 		}
+		// runs of '/' of EVERY length 0..=1100 starting at every offset 0..8 (block-wise delimiter counting)
 		if ok {
-			vec!["all strings <= L1 over {a,/,.} x all schedules", "all strings <= L2 items over {a,/,é,:,%41} x all schedules", "every ucschar scalar value inside / alone as / at the end of a segment"]
+			'runs: for n in 0..=1100usize {
+				for off in 0..8usize {
+					if (n * 8 + off) % nshards != shard {
+						continue;
+					}
+					let s = format!("{}{}b", "a".repeat(off), "/".repeat(n));
+					let fam = if (n + off) % 2 == 0 { Fam::Uri } else { Fam::Iri };
+					if !f(Case { fam, path: s, schedule: Some(vec![true, false, false, true, true]) }, n > 1) {
+						ok = false;
+						break 'runs;
+					}
+				}
+			}
+		}
+		if ok {
+			vec!["runs of '/' of every length 0..=1100 at every offset 0..8", "all strings <= L1 over {a,/,.} x all schedules", "all strings <= L2 items over {a,/,é,:,%41} x all schedules", "every ucschar scalar value inside / alone as / at the end of a segment"]
 		} else {
 			vec![]
 		}
